@@ -10,6 +10,8 @@ import typing_h as T
 TABLES = []
 LAKE_TARGETS = ["Moclo.Props.C18"]
 THEOREMS = ["Moclo.C18." + t for t in ["letter_case", "typing_case", "overhangs_case", "upper_is_respelling", "assembly_case", "product_upper_eq"]]
+# reductions under which a failing case stays a case of this property (see shrink.py)
+SHRINK = {"strings": True}
 RULE = ("typing queries (generic classes over every geometry and every kit class) and assemblies (well-formed and "
         "failing: missing module, duplicates, unused) re-spelt all-lower, all-upper, per-record and per-letter "
         "random case; verdict, overhangs and target compared case-insensitively with the all-upper-case run, "
